@@ -164,8 +164,57 @@ func runC07(c *Ctx) {
 						return true
 					}
 				}
+				// or by another in-place permutation of the buffer (its correctness is no more decided than Rotate's):
+				// something in this block, before the reset, writes elements of q.vs
+				fromVs := func(v ssa.Value) bool {
+					for i := 0; i < 4; i++ {
+						if m.isLoad(v, m.vsF) {
+							return true
+						}
+						sl, ok := v.(*ssa.Slice)
+						if !ok {
+							return false
+						}
+						v = sl.X
+					}
+					return false
+				}
+				for _, ev := range writeEvents(st.Block().Parent()) {
+					if ev.in.Block() != st.Block() || !fromVs(ev.base) {
+						continue
+					}
+					if call, ok := ev.in.(*ssa.Call); ok && staticCallee(&call.Call) == m.rotate {
+						continue // a Rotate call is judged above, with its direction
+					}
+					before := false
+					for _, in3 := range st.Block().Instrs {
+						if in3 == ev.in {
+							before = true
+						}
+						if in3 == ssa.Instruction(st) {
+							break
+						}
+					}
+					if before {
+						return true
+					}
+				}
 				return false
 			}
+			// a helper method on the same queue that rotates and resets on every path counts as the event
+			rotatingHelper := func(in2 ssa.Instruction) bool {
+				call, ok := in2.(*ssa.Call)
+				if !ok || len(call.Call.Args) == 0 || len(fn.Params) == 0 || call.Call.Args[0] != ssa.Value(fn.Params[0]) {
+					return false
+				}
+				h := staticCallee(&call.Call)
+				if h == nil || h.Blocks == nil || h == fn {
+					return false
+				}
+				okH, _ := mustPassToExit(P, firstInstr(h), isRotateReset)
+				return okH || isRotateReset(firstInstr(h))
+			}
+			isResetEvent := func(in2 ssa.Instruction) bool { return isRotateReset(in2) || rotatingHelper(in2) }
 			headZeroEdge := func(iff *ssa.If, i int) bool {
 				cm, ok := edgeCmp(iff, i)
 				if !ok || !m.isLoad(cm.X, m.headF) || !isConstInt(cm.Y, 0) {
@@ -173,7 +222,7 @@ func runC07(c *Ctx) {
 				}
 				return cm.Op == token.LEQ || cm.Op == token.EQL
 			}
-			w := walkFromE(firstInstr(fn), true, isRotateReset, headZeroEdge)
+			w := walkFromE(firstInstr(fn), true, isResetEvent, headZeroEdge)
 			reached, wit := false, ""
 			for _, in2 := range w.order {
 				if in2 == ssa.Instruction(ap) {
